@@ -317,8 +317,9 @@ class World18:
                 return False
             return self.listeners() > 0 or self.session_live or self.inflight == "handshaking"
         if ev == E_START:
-            # restarting the manager while the client still has its session: outside the statement
-            return not (self.session_live and self.stop_called)
+            # restarting a stopped manager while the client still has (or is completing) its session: outside
+            # the statement -- stop() deliberately leaves the client connected
+            return not (self.stop_called and (self.session_live or self.inflight == "handshaking"))
         return True
 
     def _spawn(self, coro):
@@ -808,18 +809,18 @@ def shards(tier: str) -> list:
     # A. main family: every attempt phase takes 1 s, loop settled after every event
     scen("phases take 1 s, loop settled after each event", [S], L, split=sp)
     # A'. deeper, from the two most interesting states: waiting after a failure / connected
-    scen("from 'waiting after first failure'", [S, T], L, k0s=(2,), split=True)
-    scen("from 'connected'", [S, T, T], L, k0s=(0,), split=True)
+    scen("from 'waiting after first failure'", [S, T], 3, k0s=(2,), split=True)
+    scen("from 'connected'", [S, T, T], 3, k0s=(0,), split=True)
     # B. same-turn interleavings: events are injected without running the loop in between
     scen("events injected into the same loop turn unless time is advanced", [S], L, settle=0, split=sp)
     # C. attempts that complete without ever suspending
-    scen("zero-delay attempts (start- and finish-phase failures coincide)", [S], L, k0s=(0, 2, 5), outc="0,2,5", d1=0, d2=0, split=True)
+    scen("zero-delay attempts (start- and finish-phase failures coincide)", [S], 3, k0s=(0, 2, 5), outc="0,2,5", d1=0, d2=0, split=True)
     # D. slow connect: the retry timer of an earlier failure fires while a record-triggered attempt is connecting
-    scen("connect phase takes 3 s (stale retry timer vs record-triggered attempt)", [S, T, E_DELTA], L, k0s=(2,), outc="0,2", d1=3, d2=0, split=True)
+    scen("connect phase takes 3 s (stale retry timer vs record-triggered attempt)", [S, T, E_DELTA], 3, k0s=(2,), outc="0,2", d1=3, d2=0, split=True)
     # E. name derived from the address / unknown name / library-created zeroconf / Zeroconf passed to the manager
     for nm, zc in ((1, 0), (2, 0), (0, 1), (0, 2)):
-        scen(f"name mode {nm}, zeroconf mode {zc}", [S], L - 1, name=nm, zc=zc)
-        scen(f"name mode {nm}, zeroconf mode {zc}, from 'waiting after first failure'", [S, T], L - 1, k0s=(2,), name=nm, zc=zc)
+        scen(f"name mode {nm}, zeroconf mode {zc}", [S], 2 if quick else 3, name=nm, zc=zc)
+        scen(f"name mode {nm}, zeroconf mode {zc}, from 'waiting after first failure'", [S, T], 2, k0s=(2,), name=nm, zc=zc)
     # F. never started
     scen("manager that was never started", [], L, k0s=(-1,))
     # G. all eight outcome classes
@@ -840,11 +841,11 @@ def shards(tier: str) -> list:
 
 BOUNDS = {
     "quick": "scenarios: start() + 3 events (4-5 from the waiting-after-failure and connected states; 2 in the name/zeroconf variants) out of {next timer, +0.25 s, session end unexpected/expected, matching PTR / matching A / non-matching record batch, start(), stop()}; attempt outcomes {success, SocketAPIError, HandshakeAPIError, InvalidAuthAPIError} (all 8 classes for 2 events), phases take 0/1/3 virtual seconds; chains: 3 consecutive failures over all 7 error classes, 12 failures of one class with an auth error anywhere; back-off table n = 1..12 by z3",
-    "thorough": "start() + 4 events over the full alphabet in every mode (5-6 from the waiting / connected states), start() + 5 events over {next timer, unexpected end, matching PTR, start(), stop()} with outcomes {success, SocketAPIError}; chains of 4 over all 7 error classes; long chain of 16",
+    "thorough": "start() + 4 events over the full alphabet (settled and same-turn modes; 3 in the zero-delay / name / zeroconf variants; 5-6 in total from the waiting / connected states), start() + 5 events over {next timer, unexpected end, matching PTR, start(), stop()} with outcomes {success, SocketAPIError}; chains of 4 over all 7 error classes; long chain of 16",
 }
 OUTSIDE = [
     "callbacks (on_connect, on_disconnect, on_connect_error) that take time or raise",
-    "start() while the manager is stopped but the client still has a live session (stop() does not disconnect the client)",
+    "start() after stop() while the client still has a live session or is completing a handshake (stop() does not disconnect the client; the restarted manager then keeps trying and gets 'Already connected' from the client until the session ends)",
     "mDNS records other than PTR/A (TXT, SRV, AAAA for the device: the statement does not say)",
     "float rounding of 1.8**n (covered by the margin obligation: no power within 1e-6 of a rounding boundary)",
     "real-time behaviour of a loaded event loop (virtual clock, callbacks take zero time)",
